@@ -107,6 +107,10 @@ func (s *Scanner) NextToken() (token.Token, error) {
 	case '`':
 		return s.scanString('`', token.RAW_STRING)
 	case 0:
+		if s.position < s.size {
+			// a NUL rune inside the data is not the end of the input
+			return s.illegalToken(), nil
+		}
 		return token.EofToken, nil
 	default:
 		if s.isIdentifierLetter(s.ch) {
